@@ -6189,8 +6189,9 @@ impl GraphEngine {
                         edge.to
                     };
                     if let Ok(neighbor) = self.get_node(neighbor_id) {
-                        // Avoid duplicates for undirected edges
-                        if !results.iter().any(|(n, _)| n.id == neighbor.id) {
+                        // Avoid duplicates for undirected edges and self-loops (listed on
+                        // both sides); a parallel edge to the same neighbour is another step
+                        if !results.iter().any(|(_, e)| e.id == edge.id) {
                             results.push((neighbor, edge));
                         }
                     }
